@@ -403,10 +403,11 @@ fn has_pct_then_delimiter(s: &str) -> bool {
 /// Signature for "the string form `text` of a value does not parse back to that value": two causes that
 /// have their own findings are recognised from the value itself, everything else gets `default`.
 fn reparse_signature(text: &str, query: Option<&str>, default: String) -> String {
-  if query.is_some_and(|q| q.starts_with('?')) {
-    "query-leading-question-mark-does-not-reparse".to_string()
-  } else if has_pct_then_delimiter(text) {
+  // the dependency's mis-scan after a pct-encoded triplet explains the failure whatever else the value contains
+  if has_pct_then_delimiter(text) {
     "pct-then-delimiter-does-not-reparse".to_string()
+  } else if query.is_some_and(|q| q.starts_with('?')) {
+    "query-leading-question-mark-does-not-reparse".to_string()
   } else {
     default
   }
@@ -489,7 +490,13 @@ fn check_parse(s: &str, url: bool, obs: &mut Obs) -> CheckResult {
       ("CoreDID::try_from(String)", attempt(|| CoreDID::try_from(s.to_string()))),
       (
         "CoreDID::try_from(BaseDIDUrl)",
-        attempt(|| BaseDIDUrl::parse(s).map_err(|e| e.to_string()).and_then(|b| CoreDID::try_from(b).map_err(|e| e.to_string()))),
+        // The `BaseDIDUrl` is produced by the dependency's own parser, called here by the harness: a panic in that
+        // call is not behaviour of the library under test, the route is simply unavailable for this input.
+        match catch(|| BaseDIDUrl::parse(s)) {
+          Err(_) => Attempt::Rejected("did_url_parser panicked before identity_did was involved".to_string()),
+          Ok(Err(e)) => Attempt::Rejected(e.to_string()),
+          Ok(Ok(b)) => attempt(|| CoreDID::try_from(b).map_err(|e| e.to_string())),
+        },
       ),
       ("CoreDID::from_json", attempt(|| CoreDID::from_json(&json))),
     ];
